@@ -23,7 +23,7 @@ done
 if [ $ok -ne 1 ]; then echo "$name: EXISTING SUITE FAILS"; grep -v "^ok\|no test files" /tmp/mw/$name.suite | head -10; exit 2; fi
 echo "$name: compiles, existing suite passes"
 for p in $props; do
-  out=$(VERIF_SRC="$W" TMPDIR=/tmp ./check $p ${TIER:-quick} 2>&1); rc=$?
+  out=$(VERIF_SRC="$W" VERIF_OUT_DIR=/tmp/mw/$name.work TMPDIR=/tmp ./check $p ${TIER:-quick} 2>&1); rc=$?
   sigs=$(echo "$out" | grep "^  signature" | sed 's/ (.*//; s/  signature //' | tr '\n' ' ')
   echo "$name: $p exit=$rc $sigs"
   if [ $rc -ne 0 ] && [ -n "$VERBOSE" ]; then echo "$out" | tail -15; fi
